@@ -162,37 +162,15 @@ def reduce_shape(cx, rule='ATTRSET'):
         others = [c for c in red.calls() if isinstance(c.func, ast.Attribute) and c.func.attr in ('__reduce__', '__reduce_ex__')
                   and c is not sup[0].value]
         red.ob(rule, 'no second reduce of a modified array', not others, others[0] if others else red.ast, key='reduce-single')
-        rets = red.stmts(ast.Return)
-        okr = len(rets) == 1 and isinstance(rets[0].value, ast.Name)
-        rv = rets[0].value.id if okr else None
-        # reduce_value = list(super_reduce_value); [2] = (fcsdata_state, super_state) | append((fcsdata_state,))
-        blk = sym.norm_block([s for s in red.ast.body if not isinstance(s, ast.Expr)])
-        spec = sym.norm_block(ast.parse(
-            "fcsdata_state = STATE\n"
-            "SUP = super(FCSData, self).__reduce__()\n"
-            "RV = list(SUP)\n"
-            "if len(SUP) > 2:\n    SS = SUP[2]\n    RV[2] = (fcsdata_state, SS)\n"
-            "else:\n    RV.append((fcsdata_state,))\n"
-            "RV = tuple(RV)\nreturn RV\n").body)
-        # compare modulo the state construction and local names
-        names = {}
-        for s in red.stmts(ast.Assign):
-            if isinstance(s.targets[0], ast.Name):
-                names.setdefault(s.targets[0].id, len(names))
-        env = {n: ('var', 'v%d' % i) for n, i in names.items()}
-        stc = red.calls('_FCSDataPickleState')
-        got = sym.norm_block([s for s in red.ast.body if not isinstance(s, ast.Expr)], env)
-        env2 = {'fcsdata_state': ('var', 'v0'), 'SUP': ('var', 'v1'), 'RV': ('var', 'v2'), 'SS': ('var', 'v3')}
-        want = sym.norm_block(ast.parse(
-            "fcsdata_state = STATE\n"
-            "SUP = super(FCSData, self).__reduce__()\n"
-            "RV = list(SUP)\n"
-            "if len(SUP) > 2:\n    SS = SUP[2]\n    RV[2] = (fcsdata_state, SS)\n"
-            "else:\n    RV.append((fcsdata_state,))\n"
-            "RV = tuple(RV)\nreturn RV\n").body, dict(env2, STATE=sym.norm(stc[0], env) if stc else ('var', '?')))
-        okb = got == want
-        red.ob(rule, 'reduce value = NumPy\'s reduce value with its state replaced by (FCSData state, NumPy state)', okb, red.ast,
-               detail='' if okb else 'body differs from the documented composition', key='reduce-compose')
+        from ..rules import inventory
+        inventory(red, rule, [
+            ('the array part of the pickle is NumPy\'s own reduce value', 'SUP = super(FCSData, self).__reduce__()'),
+            ('reduce value starts as NumPy\'s reduce value', 'RV = list(SUP)'),
+            ('NumPy\'s own state, when present, is kept', 'if len(SUP) > 2:'),
+            ('... as second element next to the FCSData state', 'RV[2] = (FS, SUP[2])'),
+            ('... otherwise the FCSData state stands alone', 'RV.append((FS,))'),
+            ('the reduce value is returned as a tuple', 'return tuple(RV)'),
+        ], ['SUP', 'RV', 'FS'])
     sst = Fn(cx, 'io.FCSData.__setstate__')
     st = sst.params[1]
     env = {}
@@ -227,8 +205,11 @@ def eqhash(cx, rule='EQHASH'):
     eq.ob(rule, 'two files are equal iff path, header, keywords, every event (exactly) and analysis keywords are equal', ok, rets[0],
           detail='' if ok else 'compares %s' % sym.show(got), key='eq')
     g = [s for s in eq.stmts(ast.If) if sym.norm(s.test) == sym.norm('isinstance(%s, self.__class__)' % o)]
-    eq.ob(rule, 'comparison applies to objects of the same class only', len(g) == 1 and eq.in_body_of(rets[0], g[0], 'body'),
-          g[0] if g else eq.ast, key='eq-class')
+    g2 = [s for s in eq.stmts(ast.If) if sym.norm(s.test) == sym.norm('not isinstance(%s, self.__class__)' % o)
+          and len(s.body) == 1 and isinstance(s.body[0], ast.Return) and sym.norm(s.body[0].value) == ('var', 'NotImplemented')]
+    okc = (len(g) == 1 and eq.in_body_of(rets[0], g[0], 'body')) or \
+        (len(g2) == 1 and eq.cfg.dominates(eq.cfg.assume[id(g2[0])][1], eq.node(rets[0])))
+    eq.ob(rule, 'comparison applies to objects of the same class only', okc, (g + g2)[0] if (g or g2) else eq.ast, key='eq-class')
     ne = Fn(cx, 'io.FCSFile.__ne__')
     rets = [r for r in ne.stmts(ast.Return) if not (isinstance(r.value, ast.Name) and r.value.id == 'NotImplemented')]
     ok = len(rets) == 1 and sym.norm(rets[0].value) in (sym.norm('not self == %s' % ne.params[1]),
@@ -299,7 +280,14 @@ def key_names(cx, fn):
         if isinstance(st.targets[0], ast.Name) and isinstance(st.value, ast.Tuple) and len(st.value.elts) == 2 \
                 and dotted(st.value.elts[1]) == kc and isinstance(st.value.elts[0], ast.Name):
             ka, ke = st.targets[0].id, st.value.elts[0].id
-    cx.need(ka and ke, '%s: no `<key_all> = (<event key>, %s)`' % (fn.qual, kc))
+    if ka is None:
+        # the assembled key may be written in place: np.ndarray.__getitem__(self, (<event key>, <channel key>))
+        for c in fn.calls():
+            if (dotted(c.func) or '').endswith('ndarray.__getitem__') or (dotted(c.func) or '').endswith('ndarray.__setitem__'):
+                for a in c.args:
+                    if isinstance(a, ast.Tuple) and len(a.elts) == 2 and dotted(a.elts[1]) == kc and isinstance(a.elts[0], ast.Name):
+                        ke, ka = a.elts[0].id, None
+    cx.need(ke, '%s: no assembled key (<event key>, %s)' % (fn.qual, kc))
     return kc, ke, ka
 
 
@@ -373,12 +361,10 @@ def getitem_branches(cx, rule='GETITEM'):
     base = list(stores.values())[0]['items'][0].targets[0].value.id
     defs = [d for d in fn.cfg.nodes if base in fn.rd.gen[d.id]]
     vals = [sym.norm(fn.rd.assigned_value(d, base)) for d in defs if fn.rd.assigned_value(d, base) is not None]
-    want = sym.norm('np.ndarray.__getitem__(self, %s)' % KA)
-    ok = want in vals
-    fn.ob(rule, 'values come from NumPy\'s own indexing with the translated key', ok, defs[0].ast if defs else fn.ast, key='numpy-call')
-    ka = [sym.norm(v) for d, v in fn.reaching_values(KA, defs[0].ast) if v is not None] if defs else []
-    ok = ka == [sym.norm('(%s, %s)' % (KE, KC))]
-    fn.ob(rule, 'the translated key is (event key unchanged, translated channel key)', ok, fn.ast, key='key-all')
+    want = sym.norm('np.ndarray.__getitem__(self, (%s, %s))' % (KE, KC))
+    ok = any(fn.eqv(fn.rd.assigned_value(d, base), want) is not None for d in defs if fn.rd.assigned_value(d, base) is not None)
+    fn.ob(rule, 'values come from NumPy\'s own indexing with the key (event key unchanged, translated channel key)', ok,
+          defs[0].ast if defs else fn.ast, key='numpy-call')
     ke = [sym.norm(v) for d, v in fn.reaching_values(KE, defs[0].ast) if v is not None] if defs else []
     ok = ke == [sym.norm('%s[0]' % fn.params[1])]
     fn.ob(rule, 'the event key is passed through unchanged', ok, fn.ast, key='key-event')
@@ -409,15 +395,21 @@ def name_to_index_shape(cx, rule='GETITEM'):
     fn = Fn(cx, 'io.FCSData._name_to_index')
     p = fn.params[1]
     rets = fn.stmts(ast.Return)
-    got = sorted(sym.show(sym.norm(r.value)) for r in rets)
+    got = sorted(sym.show(fn.nf(r.value, at=r, stop=(p,))) for r in rets)
     want = sorted(sym.show(sym.norm(s)) for s in ('[self._name_to_index(ch) for ch in %s]' % p, 'self.channels.index(%s)' % p, p))
     alt = sorted(sym.show(sym.norm(s)) for s in ('[self._name_to_index(ch) for ch in %s]' % p, 'self._channels.index(%s)' % p, p))
     ok = got in (want, alt)
     fn.ob(rule, 'a name is translated by its position in the current channel tuple, a position is returned unchanged, an iterable element-wise in order',
           ok, fn.ast, detail='' if ok else 'returns: %s' % got, key='returns')
-    stores = [s for s in fn.stmts((ast.Assign, ast.AugAssign))]
-    fn.ob(rule, 'translation keeps no state and does not rewrite its argument', not stores, stores[0] if stores else fn.ast,
-          detail='' if not stores else '`%s`' % norm_stmt(stores[0]), key='stateless')
+    stores = []
+    for s_ in fn.stmts((ast.Assign, ast.AugAssign)):
+        for t in (s_.targets if isinstance(s_, ast.Assign) else [s_.target]):
+            if not isinstance(t, ast.Name) or t.id in fn.params or isinstance(s_, ast.AugAssign):
+                stores.append(s_)
+    glob = fn.stmts((ast.Global, ast.Nonlocal))
+    fn.ob(rule, 'translation keeps no state and does not rewrite its argument (only plain local temporaries are assigned)',
+          not stores and not glob, (stores + glob)[0] if (stores or glob) else fn.ast,
+          detail='' if not (stores or glob) else '`%s`' % norm_stmt((stores + glob)[0]), key='stateless')
     # the channels property hands out the stored tuple
     ch = Fn(cx, 'io.FCSData.channels')
     r = ch.stmts(ast.Return)
@@ -430,19 +422,21 @@ def accessors(cx, rule='GETITEM'):
     names = {'amplification_type': '_amplification_type', 'detector_voltage': '_detector_voltage',
              'amplifier_gain': '_amplifier_gain', 'channel_labels': '_channel_labels', 'range': '_range',
              'resolution': '_resolution'}
-    spec = ("if channels is None:\n    channels = self._channels\n"
-            "channels = self._name_to_index(channels)\n"
-            "if hasattr(channels, '__iter__') and not isinstance(channels, six.string_types):\n"
-            "    return [self.ATTR[ch] for ch in channels]\n"
-            "else:\n    return self.ATTR[channels]\n")
+    from ..rules import inventory
     n = 0
     for m, a in names.items():
         fn = Fn(cx, 'io.FCSData.' + m)
-        body = [s for s in fn.ast.body if not (isinstance(s, ast.Expr) and isinstance(s.value, ast.Constant))]
-        got = sym.norm_block(body)
-        want = sym.norm_block(sym.parse_block(spec.replace('ATTR', a)))
-        ok = got == want
+        before = len(cx.violations)
+        inventory(fn, rule, [
+            ('accessor %s(): no channel given means all channels' % m, 'if channels is None:'),
+            ('accessor %s(): ... all channels' % m, 'channels = self._channels'),
+            ('accessor %s(): names are translated to positions' % m, 'channels = self._name_to_index(channels)'),
+            ('accessor %s(): several channels are told from one' % m,
+             "if hasattr(channels, '__iter__') and (not isinstance(channels, six.string_types)):"),
+            ('accessor %s() returns %s of exactly the asked channels, in the asked order' % (m, a), 'return [self.%s[CH] for CH in channels]' % a),
+            ('accessor %s() returns %s of the one asked channel' % (m, a), 'return self.%s[channels]' % a),
+        ], ['CH'])
         n += 1
-        fn.ob(rule, 'accessor %s() returns %s of exactly the asked channels, in the asked order' % (m, a), ok, fn.ast,
-              detail='' if ok else 'body differs from the shared accessor shape', key='accessor-' + m)
+        stores = [s_ for s_, t in subscript_stores(fn)]
+        fn.ob(rule, 'accessor %s() stores nothing' % m, not stores, stores[0] if stores else fn.ast, key='accessor-pure-' + m)
     cx.floor(rule, n, 6, 'accessors')
